@@ -4,6 +4,7 @@
 use super::*;
 use crate::{gen::*, interp::*, layout, model::*, runner::*, spec::*};
 use proptest::prelude::*;
+use serde::{Deserialize, Serialize};
 use std::path::Path;
 
 pub fn def() -> PropDef {
@@ -212,14 +213,190 @@ fn known_vanish_regression(ctx: &Ctx) {
 	}
 }
 
+/// A reader locked while a dereference of its tree is already QUEUED (committed, not yet
+/// processed), an insertion that reuses the tree's nodes under that lock, and the bookkeeping of
+/// queued dereferences per tree (roots with a reference count > 1 need several). Stepping
+/// mode; the expected state is computed directly.
+#[derive(Clone, Debug, Serialize, Deserialize)]
+pub struct QueuedDerefCase {
+	pub rc: bool,
+	/// reference count of the root of T when the dereferences start (1..=3; 1 if !rc)
+	pub refs: u8,
+	/// dereferences of T committed before the lock
+	pub derefs: u8,
+	/// of which processed before the lock
+	pub processed: u8,
+	pub children: u8,
+	/// children of T reused by the new tree B (selector bits)
+	pub reuse: u16,
+	/// process_commits steps while the lock is held
+	pub steps_locked: u8,
+	/// a further dereference of T committed while the lock is held
+	pub deref_while_locked: bool,
+}
+
+fn queued_deref_case() -> impl Strategy<Value = QueuedDerefCase> {
+	(any::<bool>(), 1u8..=3, 1u8..=3, 0u8..=3, 2u8..7, 1u16..128, 0u8..3, any::<bool>()).prop_map(|(rc, refs, derefs, processed, children, reuse, steps_locked, deref_while_locked)| {
+		let refs = if rc { refs } else { 1 };
+		let derefs = derefs.min(refs);
+		QueuedDerefCase { rc, refs, derefs, processed: processed.min(derefs), children, reuse, steps_locked, deref_while_locked }
+	})
+}
+
+pub fn run_queued_deref_case(c: &QueuedDerefCase, dir: &Path) -> CaseResult {
+	use parity_db::{NewNode, NodeRef, Operation};
+	let mut out = CaseOut::default();
+	let mut col = ColCfg::multi();
+	if c.rc {
+		col.rc = true;
+		col.preimage = true;
+	}
+	let cfg = DbCfg::new(vec![col]);
+	let db = std::sync::Arc::new(parity_db::Db::open_or_create(&cfg.options(dir, false)).map_err(|e| Failure::new("open-failed", e.to_string()))?);
+	let err = |what: &str, e: parity_db::Error| Failure::new(format!("{what}-failed"), e.to_string());
+	let drain = |db: &parity_db::Db| -> Res<()> {
+		for _ in 0..40 {
+			db.process_commits().map_err(|e| err("process_commits", e))?;
+			db.flush_logs().map_err(|e| err("flush_logs", e))?;
+			db.enact_logs().map_err(|e| err("enact_logs", e))?;
+			db.clean_logs().map_err(|e| err("clean_logs", e))?;
+			let st = db.verif_pipeline_state();
+			if st.0 == 0 && st.3 == 0 && !st.4 {
+				break
+			}
+		}
+		Ok(())
+	};
+	let kt = cfg.cols[0].key(1);
+	let kb = cfg.cols[0].key(2);
+	let child_data = |i: u8| vec![0xc0 | i; 10 + i as usize];
+	let t = NewNode { data: vec![7; 12], children: (0..c.children).map(|i| NodeRef::New(NewNode { data: child_data(i), children: vec![] })).collect() };
+	db.commit_changes(vec![(0u8, Operation::InsertTree(kt.clone(), t))]).map_err(|e| err("commit", e))?;
+	for _ in 1..c.refs {
+		db.commit_changes(vec![(0u8, Operation::ReferenceTree(kt.clone()))]).map_err(|e| err("commit", e))?;
+	}
+	drain(&db)?;
+	let addrs: Vec<u64> = {
+		let tree = db.get_tree(0, &kt).map_err(|e| err("get_tree", e))?.ok_or_else(|| Failure::new("live-tree-unreadable", "T not readable after its insertion"))?;
+		let g = tree.read();
+		let (_, ch) = g.get_root().map_err(|e| err("get_root", e))?.ok_or_else(|| Failure::new("live-tree-unreadable", "root of T missing"))?;
+		ch
+	};
+	for _ in 0..c.derefs {
+		db.commit_changes(vec![(0u8, Operation::DereferenceTree(kt.clone()))]).map_err(|e| err("commit", e))?;
+	}
+	for _ in 0..c.processed {
+		db.process_commits().map_err(|e| err("process_commits", e))?;
+	}
+	let mut refs_left = c.refs - c.derefs;
+	// lock T if it is still there (a dereference may be queued for it)
+	let tree = db.get_tree(0, &kt).map_err(|e| err("get_tree", e))?;
+	let mut reused: Vec<usize> = Vec::new();
+	if let Some(tree) = tree {
+		let guard = tree.read();
+		if let Some((_, ch)) = guard.get_root().map_err(|e| err("get_root", e))? {
+			if ch != addrs {
+				fail!("locked-tree-changed", "child addresses of T changed")
+			}
+			out.label(if c.derefs > c.processed { "locked-with-dereference-queued" } else { "locked-without-queued-dereference" });
+			reused = (0..c.children as usize).filter(|i| c.reuse >> i & 1 == 1).collect();
+			let mut children: Vec<NodeRef> = reused.iter().map(|i| NodeRef::Existing(addrs[*i])).collect();
+			children.push(NodeRef::New(NewNode { data: vec![0xbb; 9], children: vec![] }));
+			db.commit_changes(vec![(0u8, Operation::InsertTree(kb.clone(), NewNode { data: vec![8; 5], children }))]).map_err(|e| err("commit", e))?;
+			if c.deref_while_locked && refs_left > 0 {
+				db.commit_changes(vec![(0u8, Operation::DereferenceTree(kt.clone()))]).map_err(|e| err("commit", e))?;
+				refs_left -= 1;
+			}
+			for _ in 0..c.steps_locked {
+				// must not block: the removal is postponed while the lock is held
+				let (tx, rx) = std::sync::mpsc::channel();
+				let db2 = db.clone();
+				// detached: if it blocks it is released when the guard goes away with the failure
+				std::thread::spawn(move || {
+					let _ = tx.send(db2.process_commits().map(|_| ()).map_err(|e| e.to_string()));
+				});
+				let blocked = rx.recv_timeout(std::time::Duration::from_secs(4)).is_err();
+				if blocked {
+					fail!("process_commits-blocked-by-reader-lock", "process_commits did not return while the reader lock of a tree with a queued dereference was held")
+				}
+			}
+			// under the lock the tree is intact
+			for (i, a) in addrs.iter().enumerate() {
+				match guard.get_node(*a) {
+					Ok(Some((d, _))) if d == child_data(i as u8) => {},
+					Ok(Some(_)) => fail!("locked-tree-changed", "node {i} of T holds other data under the lock"),
+					Ok(None) => fail!("locked-tree-node-vanished", "node {i} of T disappeared while the reader lock was held (lock taken in stepping mode, no worker running)"),
+					Err(e) => return Err(err("get_node", e)),
+				}
+			}
+		}
+		drop(guard);
+	}
+	drain(&db)?;
+	// final state
+	let t_live = refs_left > 0;
+	let check = |db: &parity_db::Db, when: &str| -> Res<()> {
+		match db.get_tree(0, &kt).map_err(|e| err("get_tree", e))? {
+			Some(tr) => {
+				let g = tr.read();
+				let root = g.get_root().map_err(|e| err("get_root", e))?;
+				if root.is_some() != t_live {
+					fail!("tree-liveness-wrong", "{when}: T readable = {}, expected {t_live} ({} references, all dereferences applied)", root.is_some(), refs_left)
+				}
+			},
+			None =>
+				if t_live {
+					fail!("live-tree-unreadable", "{when}: T has {refs_left} references left but is not readable")
+				},
+		}
+		if !reused.is_empty() || db.get_tree(0, &kb).map_err(|e| err("get_tree", e))?.is_some() {
+			let tr = db.get_tree(0, &kb).map_err(|e| err("get_tree", e))?.ok_or_else(|| Failure::new("live-tree-unreadable", format!("{when}: B is not readable")))?;
+			let g = tr.read();
+			let (_, ch) = g.get_root().map_err(|e| err("get_root", e))?.ok_or_else(|| Failure::new("live-tree-unreadable", format!("{when}: root of B missing")))?;
+			if ch.len() != reused.len() + 1 {
+				fail!("tree-mismatch", "{when}: B has {} children, expected {}", ch.len(), reused.len() + 1)
+			}
+			for (j, i) in reused.iter().enumerate() {
+				match g.get_node(ch[j]) {
+					Ok(Some((d, _))) if d == child_data(*i as u8) => {},
+					Ok(Some(_)) => fail!("tree-mismatch", "{when}: child {j} of B (node {i} of T) holds other data"),
+					Ok(None) => fail!("shared-node-freed", "{when}: child {j} of B - node {i} reused from T under T's reader lock - is gone"),
+					Err(e) => return Err(err("get_node", e)),
+				}
+			}
+		}
+		Ok(())
+	};
+	check(&db, "after drain")?;
+	let db = std::sync::Arc::try_unwrap(db).map_err(|_| Failure::new("harness", "db still shared"))?;
+	drop(db);
+	let db = parity_db::Db::open(&cfg.options(dir, false)).map_err(|e| Failure::new("reopen-failed", e.to_string()))?;
+	check(&db, "after reopen")?;
+	drop(db);
+	let b_exists = !reused.is_empty();
+	let _ = b_exists;
+	out.nontrivial = out.labels.contains("locked-with-dereference-queued");
+	Ok(out)
+}
+
 fn run(ctx: &Ctx) {
 	known_regression(ctx);
 	known_vanish_regression(ctx);
 	let n = scaled(ctx, 5_000, 120_000);
-	ctx.run_prop_shrink("locked", n, 40, scenario(), |sc, dir| run_scenario(sc, dir, false));
+	if !ctx.run_prop_shrink("locked", n, 40, scenario(), |sc, dir| run_scenario(sc, dir, false)) {
+		return
+	}
+	let n = scaled(ctx, 3_000, 60_000);
+	ctx.run_prop_shrink("queued-deref", n, 60, queued_deref_case(), run_queued_deref_case);
 }
 
 fn replay(ctx: &Ctx, path: &Path) -> Result<(), Failure> {
+	let v: serde_json::Value = serde_json::from_str(&std::fs::read_to_string(path).map_err(|e| Failure::new("bad-replay", e.to_string()))?).map_err(|e| Failure::new("bad-replay", e.to_string()))?;
+	if v.get("sub").and_then(|s| s.as_str()) == Some("queued-deref") {
+		let (_sub, c): (String, QueuedDerefCase) = load_replay(path).map_err(|e| Failure::new("bad-replay", e))?;
+		let dir = ctx.case_dir();
+		return guarded(|| run_queued_deref_case(&c, &dir)).map(|_| ())
+	}
 	let (_sub, sc): (String, Scenario) = load_replay(path).map_err(|e| Failure::new("bad-replay", e))?;
 	let dir = ctx.case_dir();
 	guarded(|| run_scenario(&sc, &dir, false)).map(|_| ())
